@@ -297,8 +297,10 @@ def neighbour_call(c, fun, args, rnd):
     """call `fun` once on deep copies of `args` with one Bool / Int / Real / Str argument changed; returns the changed argument
     (for the replay file) or None when there is nothing to change"""
     cand = [k for k, v in args.items() if isinstance(v, (bool, int, float, str)) and not (c.params and c.params.get(k) is S.Kwargs)]
-    if not cand:
-        return None
+    if not cand or rnd.random() < 0.25:
+        # the same call on equal arguments (deep copies), whose result the caller then overwrites in place
+        run_prelude(c, fun, {a: deep_copy(b) for a, b in args.items()})
+        return {"__same_call__": True}
     k = rnd.choice(cand)
     v = args[k]
     if isinstance(v, bool):
@@ -323,9 +325,24 @@ def run_prelude(c, fun, pre):
             for a, b in pre.items():
                 if c.params and c.params.get(a) is S.Kwargs:
                     kw.update(b)
-            fun(**kw)
+            scribble(fun(**kw))
     except Exception:      # noqa
         pass
+
+
+def scribble(r, depth=0):
+    """what a caller may do with a result it was given: overwrite the arrays in place.  The prelude ran on its own deep copies, so
+    this can reach the checked call only through state the function keeps between calls (a cache handing out its own buffer)"""
+    if isinstance(r, np.ndarray):
+        try:
+            if r.flags.writeable and r.dtype.kind in "fiu" and r.size:
+                r *= 2
+                r += 1
+        except Exception:      # noqa
+            pass
+    elif isinstance(r, (tuple, list)) and depth < 3:
+        for x in r:
+            scribble(x, depth + 1)
 
 
 def search(path, qual, seed, n, out, budget_s=20.0):
@@ -410,7 +427,7 @@ def replay(path):
     pb = (d.get("violated") or {}).get("preceded_by")
     if pb:                     # the recorded history: the neighbouring call first, on its own copies
         pre = {k: unjson(v) for k, v in d["args"].items()}
-        pre.update({k: unjson(v) for k, v in pb.items()})
+        pre.update({k: unjson(v) for k, v in pb.items() if k != "__same_call__"})
         run_prelude(c, fun, pre)
         print(f"REPLAY: preceded by a call with {pb}")
     v = check_once(c, mod, fun, args)
